@@ -21,7 +21,7 @@ RULE = ("calls: for every recipe (one per handled NumPy function / ufunc / wrapp
         "second assignment denoting the same physical arrays; result under A ~ result under B ~ NumPy on root magnitudes with the semantic-class "
         "dimension; rounding-like functions are only compared in their own unit; equality/order-sensitive ones use power-of-two unit ratios (bit/byte/KiB) "
         "so that re-expression is exact. errors: a same-dimension slot filled with another dimension must raise DimensionalityError; offset-unit "
-        "arrays are refused where the scalar operator refuses. Inputs must be byte-identical after every non in-place call. Non-trivial = arguments in "
+        "arrays are refused where the scalar operator refuses. Inputs must be byte-identical after every non in-place call. methods: histories of ndarray-method calls and in-place state changes on one quantity, each call compared with the same call on a freshly built quantity (non-trivial there = a call after a state change). Non-trivial = arguments in "
         ">= 2 different units of one dimension, or an optional argument, or rank 2 with axis; distinct = distinct (recipe, units, shapes)")
 ASSUMPTIONS = ["the recipe table (argument roles and semantic class of the output) is the specification; it was written from the NumPy documentation and pint's docs/user/numpy.ipynb",
                "float comparison rtol 1e-9 (values are O(1..1e4), units differ by at most 1e6)"]
